@@ -1,6 +1,7 @@
 package rules
 
 import (
+	"fmt"
 	"go/ast"
 	"go/types"
 
@@ -27,7 +28,7 @@ func (pf poolFields) content() []*types.Var {
 }
 
 func init() {
-	Explanations["C14"] = "Decides structural necessary conditions of the pool contracts in chain.Manager: (R1) in every error-returning Manager method that writes the pool's transaction lists, index map or weight, no return that can carry an error is reachable after the first such write, and any such return after a mid-state Apply passes the store that discards the mid-state; (R2) every use of an index loaded from the shared id→position map to subscript a pool slice is dominated by a bounds test against that slice, and every 'found' return by an ID equality test with the looked-up key; (R3) every v2 transaction flowing from the pool's v2 list to a result of an exported method passes DeepCopy and v1 lists are cloned; (R4) the v2 submission parameter reaches the pool only through slices.Clone + DeepCopy. NOT decided: the exact truth table of 'known', validity of what is admitted (C05), behaviour of core's DeepCopy."
+	Explanations["C14"] = "Decides structural necessary conditions of the pool contracts in chain.Manager: (R1) in every error-returning Manager method that writes the pool's transaction lists, index map or weight, no return that can carry an error is reachable after the first such write, and any such return after a mid-state Apply passes the store that discards the mid-state; (R2) every use of an index loaded from the shared id→position map to subscript a pool slice is dominated by a bounds test against that slice, and every 'found' return by an ID equality test with the looked-up key; (R3) every v2 transaction flowing from the pool's v2 list to a result of an exported method passes DeepCopy and v1 lists are cloned; (R4) the v2 submission parameter reaches the pool only through slices.Clone + DeepCopy (or a deep-copying callee); (R5) every output→position map built by a helper from range positions of a pool list is filled from one list only, and positions read from it subscript that same list. NOT decided: the exact truth table of 'known', validity of what is admitted (C05), behaviour of core's DeepCopy."
 
 	register(&Rule{ID: "C14.R1", Prop: "C14", Floor: 4,
 		Doc: "all-or-nothing: no error-capable return after the first write to the pool contents; error return after ms.Apply* discards ms",
@@ -38,6 +39,9 @@ func init() {
 	register(&Rule{ID: "C14.R3", Prop: "C14", Floor: 8,
 		Doc: "copy-out: pool transactions leave exported methods only as DeepCopy (v2) / cloned slices (v1)",
 		Run: c14r3})
+	register(&Rule{ID: "C14.R5", Prop: "C14", Floor: 3,
+		Doc: "position maps are kind-safe: built from one pool list and used only on that list",
+		Run: positionMapsKindSafe})
 	register(&Rule{ID: "C14.R4", Prop: "C14", Floor: 1,
 		Doc: "copy-in: the v2 submission parameter is replaced by slices.Clone + per-element DeepCopy before any other use",
 		Run: c14r4})
@@ -549,4 +553,143 @@ func enclosingRangeX(f *ir.Func, n, inner *cfgx.Node) bool {
 		}
 	}
 	return false
+}
+
+// positionMapsKindSafe: every map[...]int built by a Manager helper from range
+// positions of a pool list is filled from one list only, and a position taken
+// from it subscripts that same list at every use.
+func positionMapsKindSafe(c *Ctx) {
+	pf := getPoolFields(c.P)
+	methods := c.P.MethodsOf("chain", "Manager")
+	type built struct {
+		helper *ir.Func
+		result int
+		fill   map[*types.Var]bool
+	}
+	var maps []built
+	for _, h := range methods {
+		if h.Type.Results == nil {
+			continue
+		}
+		// result positions of type map[…]int
+		pos := 0
+		var mapResults []int
+		for _, fld := range h.Type.Results.List {
+			k := len(fld.Names)
+			if k == 0 {
+				k = 1
+			}
+			if mt, ok := h.Info().TypeOf(fld.Type).(*types.Map); ok {
+				if b, ok := mt.Elem().Underlying().(*types.Basic); ok && b.Kind() == types.Int {
+					for i := 0; i < k; i++ {
+						mapResults = append(mapResults, pos+i)
+					}
+				}
+			}
+			pos += k
+		}
+		if len(mapResults) == 0 {
+			continue
+		}
+		// returned map variables per position
+		for _, rpos := range mapResults {
+			var mobj types.Object
+			// named result
+			i := 0
+			for _, fld := range h.Type.Results.List {
+				for _, nm := range fld.Names {
+					if i == rpos {
+						mobj = h.Info().Defs[nm]
+					}
+					i++
+				}
+			}
+			for _, ret := range h.Graph().Returns() {
+				if rs, ok := ret.AST.(*ast.ReturnStmt); ok && rpos < len(rs.Results) {
+					mobj = h.ObjOf(rs.Results[rpos])
+				}
+			}
+			if mobj == nil {
+				continue
+			}
+			b := built{helper: h, result: rpos, fill: map[*types.Var]bool{}}
+			ir.Walk(h.Body, false, func(x ast.Node) {
+				rs, ok := x.(*ast.RangeStmt)
+				if !ok || rs.Key == nil {
+					return
+				}
+				fld := h.FieldOf(rs.X)
+				if fld != pf.txns && fld != pf.v2txns {
+					return
+				}
+				key := h.ObjOf(rs.Key)
+				for _, w := range h.WritesIn(rs.Body, false) {
+					if ix, ok := ast.Unparen(w.LHS).(*ast.IndexExpr); ok && h.ObjOf(ix.X) == mobj && w.RHS != nil && h.ObjOf(w.RHS) == key {
+						b.fill[fld] = true
+					}
+				}
+			})
+			if len(b.fill) > 0 {
+				maps = append(maps, b)
+			}
+		}
+	}
+	if len(maps) == 0 {
+		ir.Fail("no position map built from the pool lists found")
+	}
+	for _, b := range maps {
+		c.VisitGraph(b.helper)
+		ob := c.Ob(b.helper, fmt.Sprintf("position-map-single-kind/result%d", b.result), b.helper.Body.Pos())
+		if len(b.fill) != 1 {
+			ob.Bad(nil, "%s fills one position map from both pool lists: a position of a v1 transaction is indistinguishable from a position of a v2 transaction, so parent lookups subscript the wrong list (wrong parent or index-out-of-range panic)", b.helper.Name())
+			continue
+		}
+		ob.OK("filled from one list")
+		var fill *types.Var
+		for f := range b.fill {
+			fill = f
+		}
+		// uses in callers
+		for _, caller := range methods {
+			for _, call := range caller.CallsTo(false, b.helper.Obj) {
+				n := caller.Graph().NodeContaining(call.Pos())
+				as, ok := n.AST.(*ast.AssignStmt)
+				if !ok || b.result >= len(as.Lhs) {
+					continue
+				}
+				mobj := caller.ObjOf(as.Lhs[b.result])
+				if mobj == nil {
+					continue
+				}
+				for _, fn := range append([]*ir.Func{caller}, caller.Lits...) {
+					// positions read from the map
+					posVars := map[types.Object]bool{}
+					for _, w := range fn.WritesIn(fn.Body, false) {
+						rhs := w.RHS
+						if rhs == nil {
+							rhs = ir.TupleRHS(w.Stmt)
+						}
+						if ix, ok := ast.Unparen(rhs).(*ast.IndexExpr); ok && fn.ObjOf(ix.X) == mobj {
+							if as2, ok := w.Stmt.(*ast.AssignStmt); ok && as2.Lhs[0] == w.LHS {
+								posVars[fn.ObjOf(w.LHS)] = true
+							}
+						}
+					}
+					ir.Walk(fn.Body, false, func(x ast.Node) {
+						ix, ok := x.(*ast.IndexExpr)
+						if !ok || !posVars[fn.ObjOf(ix.Index)] {
+							return
+						}
+						fld := fn.FieldOf(ix.X)
+						if fld != pf.txns && fld != pf.v2txns {
+							return
+						}
+						c.Visit(1)
+						ob2 := c.Ob(caller, "position-used-on-its-own-list", ix.Pos())
+						ob2.Check(fld == fill, nil, "a position taken from the map built over txpool.%s subscripts txpool.%s at %s", fill.Name(), fld.Name(), c.P.Pos(ix.Pos()))
+					})
+				}
+			}
+		}
+	}
 }
